@@ -66,6 +66,7 @@ def modelFor (c : Case) : DictModel :=
   match c.kind with
   | "PFC" => pfcModel c
   | "HASHRPDAC" => hashrpdacModel c
+  | "HASHRPF" => hashrpdacModel c      -- same keys, same table size, same probing (`Hash::insert`), ID = rank of the cell
   | "BLOCKS" => blocksModel c
   | _ => specModel c
 
